@@ -28,6 +28,17 @@ scalar-for-scalar WrongType faults (a float / string / dictionary for an int, fl
 (Model.mutate (RemoveCompVar i n)); generated components derive variables from their own variables and use the inner
 one only through the derived one, over names that same-stage siblings define too (the variables of a component are
 private to it), so the removed variable is often reached only INDIRECTLY while a sibling still defines it.
+ P. every workflow of B that is loaded with primitive=False is ALSO loaded with the default primitive=True
+    (graphFromFlowIR / packageFromLocation default; the only gate for a dangling reference there is
+    FlowIR.validate_references): all structural faults, a sample of the others (3 in 10 quick, 1 in 2 thorough); the property
+    predicate is evaluated on the outcome (AddBackEdge and the clashes of expanded identifiers are not judged there: a
+    primitive load expands nothing and looks for no cycle) and the outcome is compared with Model.accept_prim.
+    The reference faults include the ones where the NAME survives: a component name used in two stages (dropping one
+    of the two), a reference whose stage part alone is wrong, a reference to a name that exists in another stage only.
+ The replicated loads are compared with Model.accept_repl: accept AND unique identifiers of the EXPANDED workflow
+    (replica k of `name` is called name+k) under the replica counts a harness mirror of propagate_replicate computes
+    (verified against the expanded identifiers of the real graph whenever a load is accepted); the fault
+    ReplicaNameClash renames a same-stage sibling of a replicating component to <name><k>.
  S. (predicate only - stage-level variables are outside the Coq model) workflows whose STAGES define variables, with the
     same names in several stages and components: a well-formed one loads; removing a stage-level, component-level or
     global variable that a component still reaches from what it uses is rejected."""
@@ -63,8 +74,14 @@ ASSUMPTIONS = [
     'stage-level variables (variables.default.stages.N) are outside the Coq model: stream S evaluates the property '
     'predicate only, with the harness oracle "a name is defined for a component when the globals, the variables of its '
     'own stage or its own variables define it"',
-    'graphFromFlowIR is loaded with primitive=False: with the default primitive=True the loader does not look for '
-    'cycles at all (the property speaks about the expanded graph)',
+    'the cycle faults and the clashes among the identifiers of the expanded workflow are judged on the replicated load '
+    '(primitive=False) only: with the default primitive=True the loader expands nothing and does not look for cycles '
+    '(the property speaks about the expanded graph); every other fault is judged on both loads',
+    'the replica counts handed to Model.accept_repl are computed by a harness mirror of FlowIR.propagate_replicate '
+    '(own count, else the count of a producer that does not aggregate; an aggregating component is not expanded), '
+    'checked against the identifiers of the real expanded graph whenever the real load succeeds',
+    'the variables of a PRIMITIVE load are outside Model.accept_prim (no in-place resolution of the globals there): '
+    'predicate only',
 ]
 
 GEN_ERROR = None
@@ -552,7 +569,7 @@ OPTION_SETS = [
 ]
 
 
-def gen_wf(rng):
+def gen_wf(rng, replication=None):
     n = rng.randint(2, 5)
     comps = []
     used = set()
@@ -561,16 +578,24 @@ def gen_wf(rng):
     # loader rewrites the references of a replica textually (`x1:ref` inside `stage0.x1:ref`), a replicated and a plain
     # producer of the same name in two stages make it reject a well-formed workflow (outside the property and the model)
     with_replication = rng.random() < 0.7
+    if replication is not None:
+        with_replication = replication      # (run() asks for one workflow without replication in every run: there
+        n = max(n, 4)                       #  component names are reused across the stages)
     for i in range(n):
         if i and rng.random() < 0.4:
             stage += 1
-        name = rng.choice([x for x in NAMES if (stage, x) not in used
-                           and not (with_replication and x in [u[1] for u in used])])
+        cand = [x for x in NAMES if (stage, x) not in used and not (with_replication and x in [u[1] for u in used])]
+        # a component NAME used in two stages (identifiers are (stage, name) pairs): in about half of the draws of a
+        # workflow without replication a later stage takes a name that an earlier stage already uses
+        twice = [x for x in cand if any(u[1] == x and u[0] != stage for u in used)]
+        name = rng.choice(twice) if (twice and not with_replication and rng.random() < 0.5) else rng.choice(cand)
         used.add((stage, name))
         prev = [(c['stage'], c['name']) for c in comps]
         k = rng.randint(0, min(2, len(prev)))
         refs = rng.sample(prev, k)
         comps.append({'stage': stage, 'name': name, 'refs': refs, 'uses': [], 'vars': {}, 'opts': {}})
+        if not with_replication and rng.random() < 0.3:
+            comps[-1]['rel'] = True      # producers of its own stage are referenced in the relative form (name:ref)
     gnames = ['g0', 'g1', 'g2'][:rng.randint(1, 3)]
     gvars = {}
     for j, g in enumerate(gnames):
@@ -631,7 +656,8 @@ def var_value(refs, i):
 
 def render_comp(c):
     """structured component -> its FlowIR dictionary"""
-    refs = ['stage%d.%s:ref' % r for r in c['refs']]
+    refs = [('%s:ref' % r[1]) if (c.get('rel') and r[0] == c['stage']) else 'stage%d.%s:ref' % tuple(r)
+            for r in c['refs']]
     d = {'name': c['name'], 'stage': c['stage'],
          'command': {'executable': 'echo', 'arguments': ' '.join(
              refs + [('%%(arr)s[%%(%s)s]' % u) if u in c.get('idx_uses', []) else '%%(%s)s' % u for u in c['uses']])},
@@ -792,12 +818,30 @@ def load_mutants(w, tier, rng, corpus=False, variables_only=False):
         victim = idl[i]
         del m['comps'][i]
         has_consumer = any(victim in [tuple(r) for r in c['refs']] for c in m['comps'])
-        out.append(('DropComponent', has_consumer, [], finalize(m)))
+        out.append(('DropComponent', has_consumer, [], finalize(m), None,
+                    'B:DropComponent with a consumer, the name survives in another stage'
+                    if has_consumer and any(x[1] == victim[1] for x in idl if x != victim) else None))
         # rename each reference
         for j in range(len(w['comps'][i]['refs'])):
             m = fresh()
             m['comps'][i]['refs'][j] = (m['comps'][i]['refs'][j][0], 'nx')
             out.append(('RenameRef', True, [], finalize(m)))
+            # ... to an identifier nobody has although its NAME exists: the stage part alone is wrong (every other
+            # stage of the workflow and the one after the last), or the name is the one of a component of another stage
+            st0, nm0 = tuple(w['comps'][i]['refs'][j])
+            nst = max(x[0] for x in idl) + 1
+            alts = [('RenameRefStage', (s2, nm0)) for s2 in range(nst + 1) if s2 != st0] + \
+                   [('RenameRefName', (st0, n2)) for n2 in sorted(set(x[1] for x in idl)) if n2 != nm0]
+            alts = [(f, r2) for f, r2 in alts if r2 not in idl]
+            if tier == 'quick' and not corpus and len(alts) > 3:
+                alts = rng.sample(alts, 3)
+            for f, r2 in alts:
+                m = fresh()
+                m['comps'][i]['refs'][j] = r2
+                m['comps'][i]['rel'] = False      # (the reference is written in the absolute form)
+                out.append((f, True, [], finalize(m), None,
+                            'B:%s, the name exists in another stage' % f if any(x[1] == r2[1] for x in idl)
+                            else 'B:%s, the name exists nowhere' % f))
         # add an edge (closing a cycle when the producer consumes, transitively, from this component)
         down = reachable_from(w, idl[i])
         for r in idl:
@@ -853,6 +897,37 @@ def load_mutants(w, tier, rng, corpus=False, variables_only=False):
             finalize(m)
             m['comps'][i]['doc'][k] = v
             out.append(('WrongType', True, [], m))
+    # ---- ReplicaNameClash: the identifiers are unique as written, but a same-stage sibling j of a component i that is
+    # expanded into n replicas (named <name><k>) is called <name_i><k>: the EXPANDED workflow holds one identifier
+    # twice (duplicate identifiers - of the expanded graph).  When j is expanded itself (or lives in another stage) the
+    # new name is harmless (control).  The counts are those of the mirror of propagate_replicate
+    cnt = replica_counts(w)
+    for i in (range(n) if (cnt and not variables_only) else []):
+        ni = cnt.get(idl[i])
+        if not ni:
+            continue
+        ks = list(range(ni)) if (tier != 'quick' or corpus) else [rng.randrange(ni)]
+        for j in range(n):
+            for k in ks:
+                newname = '%s%d' % (idl[i][1], k)
+                if j == i or (idl[j][0], newname) in idl:
+                    continue
+                m = fresh()
+                m['comps'][j]['name'] = newname
+                for c in m['comps']:
+                    c['refs'] = [(idl[j][0], newname) if tuple(r) == idl[j] else tuple(r) for r in c['refs']]
+                ids2 = expanded_ids(m)
+                clash = ids2 is not None and len(ids2) != len(set(ids2))
+                if not clash and tier == 'quick' and rng.random() < 0.6:
+                    continue
+                if not clash and idl[j] in cnt:
+                    # two EXPANDED producers one of whose names extends the other (x1 and x10): the loader rewrites
+                    # the references of a replica textually and may refuse such a well-formed workflow (outside the
+                    # property and the model, see gen_wf): the control is judged by the predicate only
+                    m['predicate_only'] = True
+                out.append(('ReplicaNameClash' if clash else 'ReplicaNameNoClash', clash, [], finalize(m), None,
+                            'B:ReplicaNameClash with %s sibling' % ('an aggregating' if (w['comps'][j]['opts'].get(
+                                'workflowAttributes') or {}).get('aggregate') else 'a plain') if clash else None))
     # ---- WrongType, scalar for scalar: a float / string / int / bool / dictionary at an option of the conversion table
     base_term = c_wf(base)
     repn = ([(c['opts'].get('workflowAttributes') or {}).get('replicate') for c in w['comps']
@@ -963,6 +1038,54 @@ def load_mutants(w, tier, rng, corpus=False, variables_only=False):
     return out
 
 
+def replica_counts(w):
+    """harness mirror of FlowIR.propagate_replicate + the test of apply_replicate: identifier -> number of replicas, for
+    the components that are expanded (own workflowAttributes.replicate, else the count of a producer that does not
+    aggregate; an aggregating component and a count of 0 are not expanded).  None when the counts that reach one
+    component differ (the loader refuses that)."""
+    idl = [(c['stage'], c['name']) for c in w['comps']]
+    own, agg = {}, {}
+    for c in w['comps']:
+        wa = (c['doc'] if 'doc' in c else render_comp(c)).get('workflowAttributes') or {}
+        wa = wa if isinstance(wa, dict) else {}
+        r, a = wa.get('replicate'), wa.get('aggregate')
+        try:
+            own[(c['stage'], c['name'])] = None if r is None or isinstance(r, (float, list, dict)) else int(r)
+        except (ValueError, TypeError):
+            own[(c['stage'], c['name'])] = None
+        # (the options were converted by convert_component_types before: 'yes' / 'TRUE' / 7 are True by then)
+        agg[(c['stage'], c['name'])] = (a.lower() in ('true', 'yes')) if isinstance(a, str) else \
+            (bool(a) if isinstance(a, (bool, int)) else False)
+    val = dict(own)
+    for _ in range(len(idl) + 1):
+        for c in w['comps']:
+            cid = (c['stage'], c['name'])
+            seen = set(val[tuple(r)] for r in c['refs'] if tuple(r) in val and not agg[tuple(r)]
+                       and val[tuple(r)] is not None)
+            if own[cid] is not None:
+                seen.add(own[cid])
+            if len(seen) > 1:
+                return None
+            val[cid] = seen.pop() if seen else None
+    return {cid: v for cid, v in val.items() if v and v > 0 and not agg[cid]}
+
+
+def expanded_ids(w):
+    cnt = replica_counts(w)
+    if cnt is None:
+        return None
+    out = []
+    for c in w['comps']:
+        cid = (c['stage'], c['name'])
+        out.extend([(cid[0], '%s%d' % (cid[1], k)) for k in range(cnt[cid])] if cid in cnt else [cid])
+    return out
+
+
+def c_counts(w):
+    cnt = replica_counts(w) or {}
+    return clist(sorted(cnt.items()), lambda kv: '(%s, %d%%N)' % (c_cid(kv[0]), kv[1]))
+
+
 def env_of(w, c):
     """what component c resolves: its variables, then the globals it does not shadow (name -> mentioned names)"""
     env = {k: ([] if gresolved(w['gvars'], k) else v) for k, v in w['gvars'].items() if k not in c['vars']}
@@ -1020,8 +1143,14 @@ def classify(err):
     return 0
 
 
-def real_load(flowir, timeout=20):
-    """-> (accepted, exception class name or None, reason codes, post-load predicate problems, seconds)"""
+LAST_IDS = [None]
+
+
+def real_load(flowir, timeout=20, primitive=False):
+    """-> (accepted, exception class name or None, reason codes, post-load predicate problems, seconds)
+    primitive=False: the replicated graph (what elaunch/Experiment build); primitive=True: the default of
+    graphFromFlowIR / packageFromLocation (nothing is expanded, no search for a cycle)"""
+    LAST_IDS[0] = None
     import networkx
     import experiment.model.graph as G
     import experiment.model.errors as E
@@ -1030,7 +1159,7 @@ def real_load(flowir, timeout=20):
     signal.setitimer(signal.ITIMER_REAL, timeout)
     try:
         try:
-            g = G.WorkflowGraph.graphFromFlowIR(copy.deepcopy(flowir), {}, primitive=False)
+            g = G.WorkflowGraph.graphFromFlowIR(copy.deepcopy(flowir), {}, primitive=primitive)
         except E.ExperimentInvalidConfigurationError as e:
             signal.setitimer(signal.ITIMER_REAL, 0)
             under = getattr(getattr(e, 'underlyingError', None), 'underlyingErrors', None) or []
@@ -1042,7 +1171,7 @@ def real_load(flowir, timeout=20):
             return False, type(e).__name__, [], [], time.time() - t0
         problems = []
         try:
-            if not networkx.is_directed_acyclic_graph(g.graph):
+            if not primitive and not networkx.is_directed_acyclic_graph(g.graph):
                 problems.append('expanded graph has a cycle')
             nodes = list(g.graph.nodes)
             if len(nodes) != len(set(nodes)):
@@ -1052,8 +1181,9 @@ def real_load(flowir, timeout=20):
             if len(cids) != len(set(cids)):
                 problems.append('duplicate component identifiers')
             known = set('stage%d.%s' % c for c in cids)
+            LAST_IDS[0] = sorted(cids)
             for cid in cids:
-                conf = conc.get_component_configuration(cid, include_default=True, is_primitive=False, raw=False)
+                conf = conc.get_component_configuration(cid, include_default=True, is_primitive=primitive, raw=False)
                 for r in conf.get('references', []):
                     import experiment.model.frontends.flowir as F
                     st, prod, _f, _m = F.FlowIR.ParseDataReferenceFull(r, cid[0])
@@ -1100,10 +1230,79 @@ CORPUS_WF_SIB = {'gvars': {'g0': []},
                             'opts': OPTION_SETS[1]}]}
 
 
+# faults that are loaded as a primitive graph too on every run (the others: a sample in the quick tier)
+PRIM_ALWAYS = {'none', 'DropComponent', 'RenameRef', 'RenameRefStage', 'RenameRefName', 'DupName', 'AddForwardEdge',
+               'AddBackEdge', 'ReplicaNameClash', 'ReplicaNameNoClash'}
+# faults the primitive load is not asked to refuse: it builds no expanded graph (no cycle search, no replica names)
+PRIM_NOT_JUDGED = {'AddBackEdge', 'ReplicaNameClash'}
+
+
+def explore_prim_load(ctx, item, flowir, pterms, pmetas):
+    """the same workflow through the PRIMITIVE load: property predicate + Model.accept_prim"""
+    fault, faulty, classes, w = item[:4]
+    acc, exc, reasons, problems, dt = real_load(flowir, primitive=True)
+    ctx.count('P:' + fault)
+    ctx.count('P:accepted' if acc else 'P:rejected')
+    case = {'fault': fault, 'workflow': flowir, 'primitive': True}
+    ctx.case(('P', fault, json.dumps(flowir, sort_keys=True, default=str)), fault != 'none')
+    judged = faulty and fault not in PRIM_NOT_JUDGED
+    if faulty and not judged:
+        ctx.count('P:%s not judged on a primitive load (%s)' % (fault, 'accepted' if acc else 'rejected'))
+    if exc == 'HANG':
+        ctx.fail(case, 'loading a workflow (%s) as a primitive graph did not return within the watchdog' % fault, classes)
+    elif not acc and exc != 'ExperimentInvalidConfigurationError':
+        ctx.fail(case, 'a broken workflow (%s) is rejected by the primitive load with %s instead of an '
+                       'invalid-configuration error' % (fault, exc), classes)
+    elif acc and judged:
+        ctx.fail(case, 'a workflow with the fault %s loads with validation enabled as a primitive graph '
+                       '(graphFromFlowIR default primitive=True)' % fault, classes)
+    elif acc and problems:
+        ctx.fail(case, 'a workflow that loads as a primitive graph is not structurally executable: %s' % problems[0],
+                 classes)
+    if classes:
+        return
+    try:
+        pterms.append('(%s, %s, %s)' % (c_wf(w), cbool(acc), clist(reasons, cnat)))
+        pmetas.append((case, acc, exc, reasons))
+    except GenError:
+        pass
+
+
+# run x10 next to run1 x2: run0..run9 and run10, run11 - twelve distinct identifiers; with ELEVEN replicas of run the
+# expansion holds run10 twice (the boundary of the two-digit indices; nobody consumes both: two different counts must
+# not reach one component).  sample xN next to an authored sample1
+def wf_run(nrun):
+    return {'gvars': {'g0': []},
+            'comps': [{'stage': 0, 'name': 'run', 'refs': [], 'uses': [], 'vars': {},
+                       'opts': {'workflowAttributes': {'replicate': nrun}}},
+                      {'stage': 0, 'name': 'run1', 'refs': [], 'uses': ['g0'], 'vars': {},
+                       'opts': {'workflowAttributes': {'replicate': 2}}}]}
+
+
+def wf_sample(n):
+    return {'gvars': {'g0': []},
+            'comps': [{'stage': 0, 'name': 'sample', 'refs': [], 'uses': ['g0'], 'vars': {},
+                       'opts': {'workflowAttributes': {'replicate': n}}},
+                      {'stage': 0, 'name': 'sample1', 'refs': [], 'uses': [], 'vars': {}, 'opts': {}},
+                      {'stage': 1, 'name': 'b', 'refs': [(0, 'sample'), (0, 'sample1')], 'uses': [], 'vars': {},
+                       'opts': AGG}]}
+
+
+def clash_corpus():
+    out = []
+    for w in (wf_run(10), wf_run(11), wf_run(2), wf_sample(1), wf_sample(2), wf_sample(3)):
+        ids2 = expanded_ids(finalize(copy.deepcopy(w)))
+        clash = len(ids2) != len(set(ids2))
+        out.append(('ReplicaNameClash' if clash else 'none', clash, [], finalize(copy.deepcopy(w)), None,
+                    'B:ReplicaNameClash (corpus: replica indices of one and of two digits)' if clash else None))
+    return out
+
+
 def explore_loads(ctx, items):
     """items: (fault name, faulty, classes, finalized workflow)"""
     terms, metas = [], []
     mterms, mmetas = [], []
+    pterms, pmetas = [], []
     slow = 0.0
     for item in items:
         fault, faulty, classes, w = item[:4]
@@ -1111,6 +1310,9 @@ def explore_loads(ctx, items):
             ctx.count(item[5])
         flowir = render(w)
         acc, exc, reasons, problems, dt = real_load(flowir)
+        real_ids = LAST_IDS[0]
+        if fault in PRIM_ALWAYS or ctx.rng.random() < (0.3 if ctx.tier == 'quick' else 0.5):
+            explore_prim_load(ctx, item, flowir, pterms, pmetas)
         slow = max(slow, dt)
         ctx.count('B:' + fault)
         ctx.count('B:accepted' if acc else 'B:rejected')
@@ -1126,13 +1328,24 @@ def explore_loads(ctx, items):
             ctx.fail(case, 'a workflow with the fault %s loads with validation enabled' % fault, classes)
         elif acc and problems:
             ctx.fail(case, 'a workflow that loads is not structurally executable: %s' % problems[0], classes)
+        # ---- the mirror of the replica counts against the identifiers of the real expanded graph
+        if acc and real_ids is not None:
+            mine = expanded_ids(w)
+            if mine is None or sorted(mine) != [tuple(x) for x in real_ids]:
+                ctx.disagree(case, [list(x) for x in real_ids], mine,
+                             'identifiers of the expanded workflow: real graph vs the harness mirror of '
+                             'propagate_replicate/apply_replicate (name+index)')
+            elif len(mine) != len(w['comps']):
+                ctx.count('B:accepted loads whose expansion was compared with the mirror')
         # ---- the model
         try:
-            if classes:
+            if classes or w.get('predicate_only'):
+                if not classes:
+                    ctx.count('B:%s judged by the predicate only (textual rewriting of replica references)' % fault)
                 # inside an open finding's class the model (schema applied to the document as written) is known
                 # to differ from the pinned code: only the predicate is evaluated
                 continue
-            terms.append('(%s, %s, %s)' % (c_wf(w), cbool(acc), clist(reasons, cnat)))
+            terms.append('(%s, %s, %s, %s)' % (c_wf(w), c_counts(w), cbool(acc), clist(reasons, cnat)))
             metas.append((case, acc, exc, reasons))
             if len(item) > 4 and item[4] is not None:
                 # the model's own mutation of the well-formed workflow against the real load of the mutant
@@ -1143,11 +1356,19 @@ def explore_loads(ctx, items):
             pass
         if fault == 'none':
             ctx.sample({'well-formed workflow': flowir}, limit=2)
-    bad = ctx.model_mismatches(HEADER, terms, '(check_load_case component_full)', chunk=200, name='load')
+    bad = ctx.model_mismatches(HEADER, terms, '(check_repl_case component_full)', chunk=200, name='load')
     for i in bad:
         case, acc, exc, reasons = metas[i]
-        ctx.disagree(case, {'accepted': acc, 'exception': exc, 'reasons': reasons}, 'Model.accept / Model.reasons differ',
-                     'graphFromFlowIR(validate, primitive=False) vs Model.accept')
+        ctx.disagree(case, {'accepted': acc, 'exception': exc, 'reasons': reasons},
+                     'Model.accept_repl / Model.reasons_repl differ',
+                     'graphFromFlowIR(validate, primitive=False) vs Model.accept_repl (accept + unique identifiers of '
+                     'the expanded workflow)')
+    bad = ctx.model_mismatches(HEADER, pterms, '(check_prim_case component_full)', chunk=200, name='prim')
+    for i in bad:
+        case, acc, exc, reasons = pmetas[i]
+        ctx.disagree(case, {'accepted': acc, 'exception': exc, 'reasons': reasons},
+                     'Model.accept_prim / Model.reasons_prim differ',
+                     'graphFromFlowIR(validate, primitive=True) vs Model.accept_prim')
     bad = ctx.model_mismatches(HEADER, mterms, '(check_mutant_case component_full)', chunk=200, name='mutate')
     for i in bad:
         case, acc, exc, term = mmetas[i]
@@ -1306,7 +1527,7 @@ def run(ctx):
     schema_cases(ctx, base_flowir_for_schema())
     nwf = 6 if ctx.tier == 'quick' else 40
     wfs = [copy.deepcopy(CORPUS_WF), copy.deepcopy(CORPUS_WF_AGG), copy.deepcopy(CORPUS_WF_SIB)] + \
-        [gen_wf(ctx.rng) for _ in range(nwf)]
+        [gen_wf(ctx.rng, replication=(False if k == 0 else None)) for k in range(nwf)]
     items = []
     for w in wfs:
         items.append(('none', False, [], finalize(copy.deepcopy(w))))
@@ -1318,6 +1539,7 @@ def run(ctx):
         # and every component-level variable, CyclicVars)
         items.extend(load_mutants(w, ctx.tier, ctx.rng, corpus=(w is wfs[0] or w is wfs[1]),
                                   variables_only=(w is wfs[2] and ctx.tier == 'quick')))
+    items.extend(clash_corpus())
     explore_loads(ctx, items)
     explore_stage_loads(ctx, stage_items(ctx.rng, ctx.tier))
     ctx.rule = ('A: a document with at least one schema error; B: a single-fault mutant (drop/rename/add edge/duplicate '
@@ -1335,12 +1557,13 @@ def replay(ctx, path):
     d = json.load(open(path))
     c = d.get('case') or d.get('first', {}).get('case') or {}
     if 'workflow' in c:
-        acc, exc, reasons, problems, dt = real_load(c['workflow'])
+        acc, exc, reasons, problems, dt = real_load(c['workflow'], primitive=bool(c.get('primitive')))
         print('fault=%s accepted=%s exception=%s reasons=%s problems=%s (%.2fs)' % (c.get('fault'), acc, exc, reasons,
                                                                                   problems, dt))
-        bad = (exc not in (None, 'ExperimentInvalidConfigurationError')) or (acc and c.get('fault') not in
+        not_judged = bool(c.get('primitive')) and c.get('fault') in PRIM_NOT_JUDGED
+        bad = (exc not in (None, 'ExperimentInvalidConfigurationError')) or (acc and not not_judged and c.get('fault') not in
                                                                              ('none', 'AddForwardEdge', 'AddVarMention',
-                                                                              'CoercedScalar', 'RemoveUnusedCompVar',
+                                                                              'CoercedScalar', 'ReplicaNameNoClash', 'RemoveUnusedCompVar',
                                                                               'RemoveUnusedStageVar', 'RemoveUnusedVar')) or problems
         if bad:
             print('REPRODUCED: %s' % d.get('what', 'property violation'))
